@@ -12,6 +12,7 @@ import MosnVerif.Drive.C08H2
 import MosnVerif.Drive.C08Dubbo
 import MosnVerif.Drive.C08H1
 import MosnVerif.Drive.C08Set
+import MosnVerif.Drive.C08Trail
 import MosnVerif.Model.NeedMoreLive
 /-! driver of C08 (malformed input contained): see `run` for the case kinds. Core Lean only. -/
 namespace MosnVerif.Drive.C08
@@ -286,6 +287,7 @@ def run (caseToks impl : List String) : String :=
   | ["hpack", mx, bytes] => hpackK mx bytes impl
   | ["hpackx", mx, blocks] => hpackX mx blocks impl
   | ["h2up", method, frames] => h2up method frames impl
+  | ["h2trail", side, toks] => MosnVerif.Drive.C08Trail.h2trail side toks impl
   | ["h2set", setting, hdr, body] => MosnVerif.Drive.C08Set.h2set setting hdr body impl
   | ["disp", proto, bytes] => disp proto bytes impl
   | ["pool", api, st] => pool api st impl
